@@ -8,15 +8,16 @@ Section Proofs.
   Variable V : Type.
   Variable filt_str : V -> option string.
   Variable as_path : V -> option string.
+  Variable is_iid : V -> bool.
   Variable line_of : string -> V -> nat.
 
   Notation analysis := (analysis V).
   Notation state := (state V).
   Notation delivered := (delivered V filt_str).
-  Notation cie_loop := (cie_loop V filt_str as_path line_of).
-  Notation call_if_exists := (call_if_exists V filt_str as_path line_of).
-  Notation run_events := (run_events V filt_str as_path line_of).
-  Notation cov_step := (cov_step V as_path line_of).
+  Notation cie_loop := (cie_loop V filt_str as_path is_iid line_of).
+  Notation call_if_exists := (call_if_exists V filt_str as_path is_iid line_of).
+  Notation run_events := (run_events V filt_str as_path is_iid line_of).
+  Notation cov_step := (cov_step V as_path is_iid line_of).
 
   Definition mkd (f : string) (args : list V) (i : nat) : delivery V :=
     {| d_idx := i; d_hook := f; d_args := args |}.
@@ -28,47 +29,29 @@ Section Proofs.
     | a :: r => if delivered a f args then i :: sel (S i) r f args else sel (S i) r f args
     end.
 
-  Definition ok_args (args : list V) : Prop :=
-    match args with a :: _ :: _ => as_path a <> None | _ => True end.
-
   Lemma cov_step_dels a args st : dels (cov_step a args st) = dels st.
   Proof.
     unfold cov_step. destruct (cov st); [|reflexivity].
-    destruct args as [|x [|y r]]; try reflexivity. destruct (as_path x); reflexivity.
-  Qed.
-
-  Lemma cov_step_ok a args st :
-    crashed st = false -> (cov st = None \/ ok_args args) -> crashed (cov_step a args st) = false.
-  Proof.
-    intros Hc H. unfold cov_step. destruct (cov st) eqn:E; [|exact Hc].
-    destruct H as [H|H]; [discriminate|].
-    destruct args as [|x [|y r]]; try exact Hc. simpl in H.
-    destruct (as_path x); [exact Hc|congruence].
+    destruct args as [|x [|y r]]; try reflexivity. destruct (as_path x); [|reflexivity].
+    destruct (is_iid y); reflexivity.
   Qed.
 
   Lemma cov_step_none a args st : cov st = None -> cov (cov_step a args st) = None.
   Proof. intros H. unfold cov_step. rewrite H. exact H. Qed.
 
   Lemma cie_loop_dels : forall l i f args st ret,
-    crashed st = false -> (cov st = None \/ ok_args args) ->
-    let st' := snd (cie_loop i l f args st ret) in
-    dels st' = dels st ++ map (mkd f args) (sel i l f args)
-    /\ crashed st' = false /\ (cov st = None -> cov st' = None).
+    dels (snd (cie_loop i l f args st ret)) = dels st ++ map (mkd f args) (sel i l f args)
+    /\ (cov st = None -> cov (snd (cie_loop i l f args st ret)) = None).
   Proof.
-    induction l as [|a r IH]; intros i f args st ret Hc Hok; cbv zeta; simpl.
+    induction l as [|a r IH]; intros i f args st ret; simpl.
     - rewrite app_nil_r. auto.
-    - rewrite Hc. destruct (delivered a f args) eqn:D.
-      + set (st1 := {| dels := dels st ++ [ {| d_idx := i; d_hook := f; d_args := args |} ]; cov := cov st; crashed := false |}).
-        assert (Hc1 : crashed (cov_step a args st1) = false).
-        { apply cov_step_ok; [reflexivity|]. destruct Hok as [H|H]; [left; exact H|right; exact H]. }
-        assert (Hok1 : cov (cov_step a args st1) = None \/ ok_args args).
-        { destruct Hok as [H|H]; [left; apply cov_step_none; exact H|right; exact H]. }
-        specialize (IH (S i) f args (cov_step a args st1) (a_react a (own V i (dels st)) f args) Hc1 Hok1).
-        cbv zeta in IH. destruct IH as [I1 [I2 I3]]. split; [|split].
+    - destruct (delivered a f args) eqn:D.
+      + set (st1 := {| dels := dels st ++ [ {| d_idx := i; d_hook := f; d_args := args |} ]; cov := cov st |}).
+        destruct (IH (S i) f args (cov_step a args st1) (a_react a (own V i (dels st)) f args)) as [I1 I3].
+        split.
         * rewrite I1, cov_step_dels. subst st1. simpl. rewrite <- app_assoc. reflexivity.
-        * exact I2.
         * intros Hn. apply I3. apply cov_step_none. exact Hn.
-      + apply IH; assumption.
+      + apply IH.
   Qed.
 
   (* ---- C10: within one event the analyses are invoked in list order *)
@@ -111,25 +94,19 @@ Section Proofs.
   Definition ev_dels (l : list analysis) (e : string * list V) : list (delivery V) :=
     map (mkd (fst e) (snd e)) (sel 0 l (fst e) (snd e)).
 
-  Definition all_ok (es : list (string * list V)) : Prop := Forall (fun e => ok_args (snd e)) es.
-
+  (* coverage on or off, the deliveries of a run are the same function of the events: enabling coverage
+     never changes what is delivered and cannot make the engine fail *)
   Theorem run_events_dels : forall l es st,
-    crashed st = false -> (cov st = None \/ all_ok es) ->
-    let st' := run_events l es st in
-    dels st' = dels st ++ flat_map (ev_dels l) es /\ crashed st' = false /\ (cov st = None -> cov st' = None).
+    dels (run_events l es st) = dels st ++ flat_map (ev_dels l) es
+    /\ (cov st = None -> cov (run_events l es st) = None).
   Proof.
-    intros l es. induction es as [|e r IH]; intros st Hc Hok; cbv zeta; simpl.
+    intros l es. induction es as [|e r IH]; intros st; simpl.
     - rewrite app_nil_r. auto.
-    - assert (Hok1 : cov st = None \/ ok_args (snd e)).
-      { destruct Hok as [H|H]; [left; exact H|right; inversion H; assumption]. }
-      destruct (cie_loop_dels l 0 (fst e) (snd e) st None Hc Hok1) as [I1 [I2 I3]].
-      unfold run_events in *. simpl. unfold call_if_exists at 2.
+    - destruct (cie_loop_dels l 0 (fst e) (snd e) st None) as [I1 I3].
+      unfold run_events in *. simpl. unfold call_if_exists at 2. unfold call_if_exists at 3.
       set (st1 := snd (cie_loop 0 l (fst e) (snd e) st None)) in *.
-      assert (Hok2 : cov st1 = None \/ all_ok r).
-      { destruct Hok as [H|H]; [left; apply I3; exact H|right; inversion H; assumption]. }
-      destruct (IH st1 I2 Hok2) as [J1 [J2 J3]]. split; [|split].
+      destruct (IH st1) as [J1 J3]. split.
       + rewrite J1, I1. rewrite <- app_assoc. reflexivity.
-      + exact J2.
       + intros Hn. apply J3. apply I3. exact Hn.
   Qed.
 
@@ -181,15 +158,13 @@ Section Proofs.
   Qed.
 
   Theorem isolation : forall l es i a coverage,
-    nth_error l i = Some a -> (coverage = false \/ all_ok es) ->
+    nth_error l i = Some a ->
     own V i (dels (run_events l es (init_state V coverage)))
     = map (set_idx i) (dels (run_events [a] es (init_state V coverage))).
   Proof.
-    intros l es i a c H Hok.
-    assert (Hok' : cov (init_state V c) = None \/ all_ok es).
-    { destruct Hok as [->|Hk]; [left; reflexivity|right; exact Hk]. }
-    destruct (run_events_dels l es (init_state V c) eq_refl Hok') as [I1 _].
-    destruct (run_events_dels [a] es (init_state V c) eq_refl Hok') as [J1 _].
+    intros l es i a c H.
+    destruct (run_events_dels l es (init_state V c)) as [I1 _].
+    destruct (run_events_dels [a] es (init_state V c)) as [J1 _].
     rewrite I1, J1. simpl. apply own_flat. exact H.
   Qed.
 
@@ -217,7 +192,8 @@ Section Proofs.
   (* the coverage key of a delivery, given the analysis list *)
   Definition d_key (l : list analysis) (d : delivery V) : option key :=
     match d_args d, nth_error l (d_idx d) with
-    | a :: b :: _, Some an => match as_path a with Some p => Some (p, line_of p b, a_cls an) | None => None end
+    | a :: b :: _, Some an =>
+      match as_path a with Some p => if is_iid b then Some (p, line_of p b, a_cls an) else None | None => None end
     | _, _ => None
     end.
   Definition count_key (l : list analysis) (k : key) (ds : list (delivery V)) : nat :=
@@ -227,51 +203,42 @@ Section Proofs.
 
   Lemma cie_loop_cov : forall L l i f args st ret m,
     (forall j a, nth_error l j = Some a -> nth_error L (i + j) = Some a) ->
-    crashed st = false -> cov st = Some m -> ok_args args ->
-    let st' := snd (cie_loop i l f args st ret) in
-    exists m', cov st' = Some m' /\
+    cov st = Some m ->
+    exists m', cov (snd (cie_loop i l f args st ret)) = Some m' /\
       forall k, cov_get k m' = cov_get k m + count_key L k (map (mkd f args) (sel i l f args)).
   Proof.
-    intros L. induction l as [|a r IH]; intros i f args st ret m HL Hc Hm Hok; cbv zeta; simpl.
+    intros L. induction l as [|a r IH]; intros i f args st ret m HL Hm; simpl.
     - exists m. split; [exact Hm|]. intros k. unfold count_key. simpl. lia.
-    - rewrite Hc. destruct (delivered a f args) eqn:D.
-      + set (st1 := {| dels := dels st ++ [ {| d_idx := i; d_hook := f; d_args := args |} ]; cov := cov st; crashed := false |}).
-        assert (Hc1 : crashed (cov_step a args st1) = false) by (apply cov_step_ok; [reflexivity|right; exact Hok]).
+    - destruct (delivered a f args) eqn:D.
+      + set (st1 := {| dels := dels st ++ [ {| d_idx := i; d_hook := f; d_args := args |} ]; cov := cov st |}).
         assert (HL' : forall j b, nth_error r j = Some b -> nth_error L (S i + j) = Some b).
         { intros j b Hj. replace (S i + j) with (i + S j) by lia. apply HL. exact Hj. }
         assert (Ha : nth_error L i = Some a) by (specialize (HL 0 a eq_refl); rewrite Nat.add_0_r in HL; exact HL).
-        destruct args as [|x [|y rest]].
-        * (* fewer than two args: no coverage entry *)
-          assert (E : cov_step a [] st1 = st1) by (unfold cov_step; simpl; rewrite Hm; reflexivity).
-          rewrite E in *. destruct (IH (S i) f [] st1 (a_react a (own V i (dels st)) f []) m HL' eq_refl Hm Hok) as [m' [M1 M2]].
-          exists m'. split; [exact M1|]. intros k. rewrite M2. unfold count_key. simpl. reflexivity.
-        * assert (E : cov_step a [x] st1 = st1) by (unfold cov_step; simpl; rewrite Hm; reflexivity).
-          rewrite E in *. destruct (IH (S i) f [x] st1 (a_react a (own V i (dels st)) f [x]) m HL' eq_refl Hm Hok) as [m' [M1 M2]].
-          exists m'. split; [exact M1|]. intros k. rewrite M2. unfold count_key. simpl. reflexivity.
-        * simpl in Hok. destruct (as_path x) as [p|] eqn:P; [|congruence].
-          assert (E : cov (cov_step a (x :: y :: rest) st1) = Some (cov_incr (p, line_of p y, a_cls a) m)).
-          { unfold cov_step. simpl. rewrite Hm, P. reflexivity. }
-          assert (Hok2 : ok_args (x :: y :: rest)) by (simpl; rewrite P; discriminate).
-          destruct (IH (S i) f (x :: y :: rest) (cov_step a (x :: y :: rest) st1)
-                       (a_react a (own V i (dels st)) f (x :: y :: rest)) _ HL' Hc1 E Hok2) as [m' [M1 M2]].
-          exists m'. split; [exact M1|]. intros k. rewrite M2, cov_get_incr.
-          unfold count_key. simpl. assert (K : d_key L (mkd f (x :: y :: rest) i) = Some (p, line_of p y, a_cls a)) by (unfold d_key, mkd; simpl; rewrite Ha, P; reflexivity). rewrite K. lia.
+        (* the coverage key of this delivery, if any *)
+        assert (Hk : exists m1, cov (cov_step a args st1) = Some m1 /\
+                  forall k, cov_get k m1 = cov_get k m +
+                     (if match d_key L (mkd f args i) with Some k' => key_eqb k k' | None => false end then 1 else 0)).
+        { unfold cov_step. simpl. rewrite Hm. unfold d_key, mkd. simpl. rewrite Ha.
+          destruct args as [|x [|y rest]]; try (exists m; split; [exact Hm|intros k; lia]).
+          destruct (as_path x) as [p|]; [|exists m; split; [exact Hm|intros k; lia]].
+          destruct (is_iid y); [|exists m; split; [exact Hm|intros k; lia]].
+          eexists. split; [reflexivity|]. intros k. apply cov_get_incr. }
+        destruct Hk as [m1 [E1 E2]].
+        destruct (IH (S i) f args (cov_step a args st1) (a_react a (own V i (dels st)) f args) m1 HL' E1) as [m' [M1 M2]].
+        exists m'. split; [exact M1|]. intros k. rewrite M2, E2. unfold count_key. simpl. lia.
       + apply IH; try assumption. intros j b Hj. replace (S i + j) with (i + S j) by lia. apply HL. exact Hj.
   Qed.
 
   Theorem coverage_counts : forall l es st m,
-    crashed st = false -> cov st = Some m -> all_ok es ->
-    let st' := run_events l es st in
-    exists m', cov st' = Some m' /\
+    cov st = Some m ->
+    exists m', cov (run_events l es st) = Some m' /\
       forall k, cov_get k m' = cov_get k m + count_key l k (flat_map (ev_dels l) es).
   Proof.
-    intros l es. induction es as [|e r IH]; intros st m Hc Hm Hok; cbv zeta; simpl.
+    intros l es. induction es as [|e r IH]; intros st m Hm; simpl.
     - exists m. split; [exact Hm|]. intros k. unfold count_key. simpl. lia.
-    - inversion Hok as [|? ? Hoke Hokr]; subst.
-      destruct (cie_loop_cov l l 0 (fst e) (snd e) st None m (fun j a H => H) Hc Hm Hoke) as [m1 [M1 M2]].
-      destruct (cie_loop_dels l 0 (fst e) (snd e) st None Hc (or_intror Hoke)) as [_ [C1 _]].
+    - destruct (cie_loop_cov l l 0 (fst e) (snd e) st None m (fun j a H => H) Hm) as [m1 [M1 M2]].
       unfold run_events in *. simpl. unfold call_if_exists at 2.
-      destruct (IH _ m1 C1 M1 Hokr) as [m' [N1 N2]].
+      destruct (IH _ m1 M1) as [m' [N1 N2]].
       exists m'. split; [exact N1|]. intros k. rewrite N2, M2.
       unfold count_key, ev_dels. rewrite count_occ_b_app. lia.
   Qed.
